@@ -1224,7 +1224,11 @@ impl FixtureDatabase {
 
         // Scan forward from last_sig_line looking for trailing ":"
         let lines: Vec<&str> = content.lines().collect();
+        // The first body line is not part of the signature (`with x:` / `"""Usage:` end in a colon
+        // too); only when the body starts on the last signature line itself (`def f(): pass`) is
+        // that line scanned.
         let scan_end = first_body_line
+            .map(|body_line| body_line.saturating_sub(1).max(last_sig_line))
             .unwrap_or(last_sig_line + 10)
             .min(last_sig_line + 10)
             .min(lines.len());
